@@ -16,6 +16,11 @@ def stream_decls(fn, kind):
             init = strip(n["c"][0])
             if init.get("k") == "CXXConstructExpr" and init.get("c"):
                 out.append((n, txt(strip(init["c"][0]))))
+        # a stream declared elsewhere (captured by a lambda, reused) and opened here: stream.open(path, ...)
+        if n.get("k") == "CXXMemberCallExpr" and short(callee(n) or "") == "open" and call_args(n):
+            o = strip(call_object(n)) if call_object(n) is not None else None
+            if o is not None and kind in (o.get("t") or ""):
+                out.append((n, txt(strip(call_args(n)[0]))))
     return out
 
 
@@ -286,6 +291,62 @@ def run(chk):
                 chk.ob("C17-D6.lostwrite", f.key, "for(%s %s : %s)@%d" % (t[:30], lv.get("name"), txt(st.get("range"))[:30], nl), not bad, f.loc(st),
                        ("`%s` modifies a copy of the element" % txt(bad[0])[:60]) if bad else "")
     chk.floor("C17-D6.lostwrite", nl, 8, "range-for loops in the construction data code")
+
+    # ------------------------------------------------------------------ D10 a stream that outlives one attempt is closed on every way out
+    chk.rule("C17-D10.reopen", "a file stream of the recovery / checkpoint code that is not local to the function that opens it (declared outside a lambda that is called once per file, "
+                               "or reused) is closed on every way out of that function, the exception handlers included: open() on a stream that is still open fails, and the "
+                               "second file (the backup) would be reported missing although it is complete")
+    nre = 0
+    controls = db.fns("VerifControls::control_reopen", required=False)
+    nctl_bad = 0
+    for fn in list(cores) + list(controls):
+        for g in [fn] + lambdas_of(db, fn):
+            own = {v.get("did") for v in g.locals().values()}
+            for c in g.calls(into_lambda=False):
+                if short(callee(c) or "") != "open" or call_object(c) is None:
+                    continue
+                o = strip(call_object(c))
+                if o is None or "fstream" not in (o.get("t") or "") or o.get("k") != "DeclRefExpr" or o.get("did") in own:
+                    continue
+                nre += 1
+                chk.saw(g)
+
+                def closes(n, did=o.get("did")):
+                    return n.get("k") == "CXXMemberCallExpr" and short(callee(n) or "") == "close" and call_object(n) is not None and (strip(call_object(n)) or {}).get("did") == did
+                normal = bool(must_pass_after(g, c, closes))
+                # handlers of try blocks that can be entered after the open
+                handlers_ok = True
+                where = None
+                for t in [a for a in g.walk(into_lambda=False) if a.get("k") == "CXXTryStmt"]:
+                    if t.get("l", 0) < c.get("l", 0) and not any(x is c for x in walk(t)):
+                        continue
+                    for h in [x for x in t.get("c", []) if isinstance(x, dict) and x.get("k") == "CXXCatchStmt"]:
+                        body = [x for x in h.get("c", []) if isinstance(x, dict)]
+                        stmts = body[-1].get("c", []) if body and body[-1].get("k") == "CompoundStmt" else body
+                        closed = False
+                        for st in stmts:
+                            if any(closes(q) for q in [st] + list(walk(st))):
+                                closed = True
+                                break
+                            if any(q.get("k") in ("ReturnStmt", "CXXThrowExpr") for q in [st] + list(walk(st))):
+                                break
+                        if not closed:
+                            handlers_ok = False
+                            where = h
+                ok = normal and handlers_ok
+                if fn in controls:
+                    nctl_bad += (0 if ok else 1)
+                    continue
+                chk.ob("C17-D10.reopen", g.key, "stream `%s` opened at line %d is closed on every way out" % (o.get("var") or o.get("name"), c.get("l", 0)), ok, g.loc(c),
+                       "" if ok else ("a return path does not close it" if not normal else "the exception handler at line %d leaves it open: the next open() on the same stream fails" % where.get("l", 0)))
+    if nctl_bad < 1:
+        raise AnalysisBroken("C17-D10.reopen: the positive control (instantiate/controls.cpp, control_reopen) is not reported: the matcher is broken")
+    chk.ob("C17-D10.reopen", "(control)", "the rule reports the seeded control in instantiate/controls.cpp", True, "", "%d control instance(s) reported" % nctl_bad)
+    chk.note("C17-D10.reopen", "Addons/tsgConstructSurrogate.hpp", "%d open() call(s) on streams that outlive the opening function (0 on a tree where every stream is local: the destructor closes it)" % nre)
+
+    from rules import header
+    nh = header.header_rule(chk, db, "C17-D9.header")         # the sample block of a checkpoint
+    chk.floor("C17-D9.header", nh, 2, "header numbers of the checkpointed sample block")
 
     return ("Static rule discharge over every instantiation of constructCommon<parallel,guess> and its lambdas, CompleteStorage::read and TasmanianSparseGrid::read/readBinary: "
             "file-set agreement of recovery and checkpoint code, dominance of a completed copy-to-a-different-path before the truncating open, presence of a stream/end-marker "
